@@ -191,12 +191,32 @@ fn mk_rec(r: &Value) -> Vec<u8> {
         enc_items(it)
     } else {
         let seq = jbytes(get(r, "seq"));
-        let pairs: Vec<(Vec<u8>, Vec<u8>)> = get(r, "pairs")
+        let mut pairs: Vec<(Vec<u8>, Vec<u8>)> = get(r, "pairs")
             .as_array()
             .expect("pairs")
             .iter()
             .map(|p| (jbytes(&p[0]), jbytes(&p[1])))
             .collect();
+        // "grind": {"pos": i, "byte": b}: add a pair "zg" -> counter (kept in key order) and count until the genuine
+        // signature has byte b at position i (signatures with a leading zero byte in r or s, etc.)
+        if let Some(g) = r.get("grind") {
+            let pos = get(g, "pos").as_u64().unwrap_or(0) as usize;
+            let want = get(g, "byte").as_u64().unwrap_or(0) as u8;
+            let by = get(get(r, "sig"), "by").as_str().expect("grind needs sig.by");
+            let key = b"zg".to_vec();
+            let at = pairs.iter().position(|(k, _)| *k > key).unwrap_or(pairs.len());
+            pairs.insert(at, (key, vec![0x80]));
+            for n in 0u32..20000 {
+                let mut v = Vec::new();
+                indep::enc_str(&n.to_be_bytes(), &mut v);
+                pairs[at].1 = v;
+                let msg = indep::content_bytes(&indep::items_from_seq_pairs(&seq, &pairs));
+                let sig = keys::indep_sign(by, &msg).expect("signer");
+                if sig.get(pos) == Some(&want) {
+                    break;
+                }
+            }
+        }
         indep::items_from_seq_pairs(&seq, &pairs)
     };
     let sigspec = get(r, "sig");
@@ -263,6 +283,22 @@ fn mk_sig_item(s: &Value, items_enc: &[u8]) -> Vec<u8> {
     }
     if let Some(n) = s.get("len").and_then(|x| x.as_u64()) {
         sig.resize(n as usize, 0x11);
+    }
+    // "drop": i removes the byte at position i; "lpad": n prepends n zero bytes; "rpad": n appends n zero bytes
+    if let Some(i) = s.get("drop").and_then(|x| x.as_u64()) {
+        if (i as usize) < sig.len() {
+            sig.remove(i as usize);
+        }
+    }
+    if let Some(n) = s.get("lpad").and_then(|x| x.as_u64()) {
+        for _ in 0..n {
+            sig.insert(0, 0);
+        }
+    }
+    if let Some(n) = s.get("rpad").and_then(|x| x.as_u64()) {
+        for _ in 0..n {
+            sig.push(0);
+        }
     }
     let mut out = Vec::new();
     match get(s, "as").as_str().unwrap_or("s") {
